@@ -401,6 +401,13 @@ def e2e_configs(tier):
              compression="none", nodata=-3),                     # uncompressed level that is exactly one tile
         dict(base, H=40, W=33, axis="SYX", S=1, dtype="float32", chunks=(48, 1), blocksize=[(16, 32), 16], band_chunk=1),
         dict(base, H=16, W=3, axis="YXS", S=1, dtype="float64", chunks=(16, 32), blocksize=[(32, 16), 32, 16]),
+        # several writes per chunk with parts small enough that non-final chunks spill, several sub-streams (levels)
+        dict(base, H=50, W=70, compression="none", writes_per_chunk=2, min_write_sz=64, spill_sz=64),
+        dict(base, H=50, W=70, compression="none", writes_per_chunk=3, min_write_sz=1, spill_sz=1, scheduler="shuffle:2"),
+        dict(base, H=40, W=40, axis="SYX", S=2, dtype="float32", chunks=(16, 16), blocksize=[16], compression="none",
+             writes_per_chunk=2, min_write_sz=500, spill_sz=500, band_chunk=1, scheduler="threads:3"),
+        dict(base, H=15, W=17, dtype="float32", chunks=(20, 9), blocksize=[(32, 16), 32, 16], compression="none",
+             writes_per_chunk=2, min_write_sz=64, spill_sz=256),
         # irregular source chunking whose largest chunk equals the tile size (chunksize == tile, no rechunk before be07dac)
         dict(base, H=100, W=72, chunks=((32, 18, 32, 18), (32, 32, 8)), blocksize=[32, 16]),
         dict(base, H=64, W=64, axis="SYX", S=2, dtype="uint8", chunks=((32, 16, 16), (16, 32, 16)), blocksize=[32], band_chunk=1),
@@ -441,8 +448,8 @@ def e2e_configs(tier):
             # the other combinations run into the multi-part defects tracked under property C06 (F2/F3)
             c["min_write_sz"] = rng.choice([1, 64, 500])
             c["spill_sz"] = c["min_write_sz"] * rng.choice([1, 4, 40])
-        if rng.random() < 0.2:
-            c["writes_per_chunk"] = rng.choice([1, 2])
+        if rng.random() < (0.5 if "min_write_sz" in c else 0.1):
+            c["writes_per_chunk"] = rng.choice([2, 2, 3])
         if rng.random() < 0.2:
             c["bigtiff"] = False
         cfgs.append(c)
